@@ -212,6 +212,8 @@ pub struct UnsolOracle {
     pending_cfg: Option<(u8, [bool; 3], u8, bool)>,
     /// READ sent and not yet answered: (seq, time)
     read_in_flight: Option<(u8, u64)>,
+    /// what the READ last sent asks for: (sequence number, static data wanted, event classes / types wanted)
+    last_read_wants: Option<(u8, bool, bool)>,
     /// the request processed last on this connection (a byte-identical Repeat is a retransmission, not executed)
     last_request: Option<Vec<u8>>,
     sol_wait: bool,
@@ -240,6 +242,7 @@ impl UnsolOracle {
             deferred_due: None,
             pending_cfg: None,
             read_in_flight: None,
+            last_read_wants: None,
             last_request: None,
             sol_wait: false,
             connected: true,
@@ -481,6 +484,20 @@ impl Oracle for UnsolOracle {
                     match func {
                         refapp::FUNC_READ if unicast => {
                             self.read_in_flight = Some((s.bytes[0] & 0x0F, t));
+                            self.last_read_wants = match refapp::decode_objects(&s.bytes[2..], false) {
+                                Ok((headers, _)) => {
+                                    let is_event_header = |h: &refapp::HeaderInfo| {
+                                        (h.group == 60 && (2..=4).contains(&h.var))
+                                            || refapp::count_only_event_group(h.group)
+                                    };
+                                    Some((
+                                        s.bytes[0] & 0x0F,
+                                        headers.iter().any(|h| !is_event_header(h)),
+                                        headers.iter().any(|h| is_event_header(h)),
+                                    ))
+                                }
+                                Err(_) => None,
+                            };
                             if in_wait {
                                 self.deferred = Some((s.bytes[0] & 0x0F, t));
                                 self.deferred_due = None;
@@ -555,6 +572,26 @@ impl Oracle for UnsolOracle {
                                         self.outstanding = None;
                                         kind_trace = mix(&[kind_trace, 3]);
                                     }
+                                }
+                            }
+                        }
+                        // R7b: the answer to a READ - deferred or not - carries what that READ asked for, not what an earlier,
+                        // superseded READ asked for
+                        if let Some((seq, wants_static, wants_events)) = self.last_read_wants {
+                            if frag.ctrl.fir && frag.ctrl.seq == seq {
+                                self.last_read_wants = None;
+                                let meas = refapp::measurements(frag);
+                                let has_static = meas.iter().any(|m| !m.is_event);
+                                let has_events = meas.iter().any(|m| m.is_event);
+                                if (has_static && !wants_static) || (has_events && !wants_events) {
+                                    return Some(Violation::new(
+                                        "C14/R7 read-answer-carries-what-was-not-asked-for",
+                                        if has_static && !wants_static { "static-objects" } else { "events" },
+                                        format!(
+                                            "step {}: the response to READ seq {} (static wanted: {}, events wanted: {}) carries static objects: {}, events: {}",
+                                            step.op_index, seq, wants_static, wants_events, has_static, has_events
+                                        ),
+                                    ));
                                 }
                             }
                         }
